@@ -14,7 +14,7 @@ KINDS = ms.KINDS
 def translate():
     from translator import registry
 
-    return registry.gen_transitions()
+    return registry.generate("Transitions")
 
 
 def live_tables():
@@ -123,7 +123,7 @@ def check_case(ctx, report, ops, tbl_run, tbl_check, label):
             else:
                 report.hit("accept_iff_path:rejected")
             if (a["res"] == "ok") != expect_ok:
-                trig = "suffixed_step_rejected" if is_path and not bad else "illegal_path_accepted"
+                trig = "legal_path_rejected" if is_path and not bad else "illegal_path_accepted"
                 report.fail("accept_iff_path", trig, case, a, f"is_path={is_path} injected={bad}")
             elif a["res"] == "ok":
                 if a["trace"] != b["spec_trace"]:
